@@ -222,11 +222,27 @@ def r3_topk(ctx) -> None:
   vb = ctx.index.module_of_file(VB)
   opt = vb.classes.get('VectorizedOptimizer')
   ub = opt.methods['_update_best_results']
-  cats = [c for c in flow.calls_in(ub.node) if (dotted(c.func) or '').endswith('concatenate') and c.args and isinstance(c.args[0], ast.List)]
-  orders = []
-  for c in cats:
-    orders.append(['batch' if unparse(e, 0).startswith('batch_') else 'best' if unparse(e, 0).startswith('best_results') else '?' for e in c.args[0].elts])
-  ok = len(cats) == 3 and len({tuple(o) for o in orders}) == 1 and '?' not in orders[0]
+  def lambda_env(node: ast.AST) -> Dict[str, ast.AST]:
+    """Parameters of an enclosing `tree_map(lambda a, b: ..., X, Y)` lambda -> the trees they range over."""
+    env: Dict[str, ast.AST] = {}
+    for anc in ancestors(node):
+      if isinstance(anc, ast.Lambda):
+        par = getattr(anc, '_vz_parent', None)
+        if isinstance(par, ast.Call) and (dotted(par.func) or '').endswith('tree_map') and par.args and par.args[0] is anc:
+          for p_, a_ in zip([x.arg for x in anc.args.args], par.args[1:]):
+            env[p_] = a_
+    return env
+
+  def origin(e: ast.AST) -> str:
+    env = lambda_env(e)
+    if isinstance(e, ast.Name) and e.id in env:
+      e = env[e.id]
+    t = unparse(e, 0)
+    return 'batch' if t.startswith('batch_') else 'best' if t.startswith('best_results') else '?'
+  cats = [c for c in ast.walk(ub.node) if isinstance(c, ast.Call) and (dotted(c.func) or '').endswith('concatenate')
+          and c.args and isinstance(c.args[0], ast.List)]
+  orders = [[origin(e) for e in c.args[0].elts] for c in cats]
+  ok = len(cats) >= 2 and len({tuple(o) for o in orders}) == 1 and '?' not in orders[0]
   ctx.check(ok, 'R3', 'rewards / continuous / categorical concatenated in one operand order', ub.node, f'{orders}',
             f'operand orders {orders} differ: row i of the rewards no longer belongs to row i of the features',
             construct='concat-order', func=ub.qualname)
@@ -236,9 +252,14 @@ def r3_topk(ctx) -> None:
   if idx_defs:
     iv = idx_defs[0].targets[0].id
     neg = '-all_rewards' in unparse(idx_defs[0].value, 0)
-    gathers = [s for s in ast.walk(ub.node) if isinstance(s, ast.Subscript) and isinstance(s.slice, ast.Name) and s.slice.id == iv]
-    bases = sorted(unparse(s.value, 0) for s in gathers)
-    okg = neg and bases == ['all_features.categorical', 'all_features.continuous', 'all_rewards']
+    gathers = [s_ for s_ in ast.walk(ub.node) if isinstance(s_, ast.Subscript) and isinstance(s_.slice, ast.Name) and s_.slice.id == iv]
+    bases = set()
+    for s_ in gathers:
+      env = lambda_env(s_)
+      base = env[s_.value.id] if isinstance(s_.value, ast.Name) and s_.value.id in env else s_.value
+      bases.add(unparse(base, 0))
+    feats = {'all_features'} <= bases or {'all_features.categorical', 'all_features.continuous'} <= bases
+    okg = neg and 'all_rewards' in bases and feats and bases <= {'all_rewards', 'all_features', 'all_features.categorical', 'all_features.continuous'}
   ctx.check(okg, 'R3', 'one index (largest rewards first) gathers rewards and both feature parts', ub.node,
             'top indices of -all_rewards applied to all three arrays',
             'rewards and features are gathered with different indices (or the smallest rewards are kept)', construct='gather', func=ub.qualname)
@@ -277,6 +298,8 @@ def r4_keys(ctx) -> None:
       params = {a.arg for a in node.args.args + node.args.kwonlyargs}
       # keys: names bound by `a, b = jax.random.split(k)` where k is itself a key
       keys: Set[str] = {p for p in params if 'seed' in p or 'rng' in p or 'key' in p}
+      # a closure uses keys of the enclosing function (which is checked on its own)
+      keys |= {nm for nm in _free_names(node) if 'seed' in nm or 'rng' in nm or nm.endswith('key')}
       # loop carry: `state, best, seed = args` inside a step function
       for x in ast.walk(node):
         if isinstance(x, ast.Assign) and isinstance(x.value, ast.Name) and x.value.id in params:
